@@ -1052,68 +1052,8 @@ def classify_platformless_restore(what, case, detail):
     return False
 
 
-def _at_path(d, dotted):
-    for k in dotted.split("."):
-        if not isinstance(d, dict) or k not in d:
-            return None
-        d = d[k]
-    return d
-
-
-def classify_blueprint_order(what, case, detail):
-    """known finding C07-stored-blueprints-reorder-layers: the running experiment layers blueprints default-global <
-    default-stage < platform-global < platform-stage; the stored description folds them into (default+platform global)
-    < (default+platform stage), so for an option path that BOTH the default blueprint of a stage and the global blueprint
-    of the selected (non-default) platform set, a component instantiated after a reload gets the default-stage value
-    where the never-reloaded experiment uses the platform-global one.  Accepted shape only: the iteration instantiated
-    after a reload differs from the control in configuration paths only (+ the environment when command.environment is
-    such a path), every differing path of a node of stage s is set by blueprint.default.stages[s] and by
-    blueprint.<platform>.global and not by blueprint.<platform>.stages[s], the reloaded value is the default-stage
-    one and the control value the platform-global one."""
-    if what != "iteration-after-reload-differs-from-never-reloaded-experiment":
-        return False
-    plat = case.get("platform")
-    if not plat or plat == "default":
-        return False
-    detail = detail or {}
-    conf = detail.get("configuration") or {}
-    if not conf:
-        return False
-    allowed = {"configuration", "environment", "step", "iteration", "loaded_by"}
-    if not set(detail) <= allowed:
-        return False
-    bps = (case.get("main") or {}).get("blueprint") or {}
-    dflt, pl = bps.get("default") or {}, bps.get(plat) or {}
-    env_explained = set()
-    for node, paths in conf.items():
-        m = re.match(r"stage(\d+)\.", node)
-        if not m:
-            return False
-        st = int(m.group(1))
-        dstage = (dflt.get("stages") or {}).get(st)
-        if dstage is None:
-            dstage = (dflt.get("stages") or {}).get(str(st)) or {}
-        pstage = (pl.get("stages") or {}).get(st)
-        if pstage is None:
-            pstage = (pl.get("stages") or {}).get(str(st)) or {}
-        pglob = pl.get("global") or {}
-        for path, vals in paths.items():
-            a, b, c = _at_path(dstage, path), _at_path(pglob, path), _at_path(pstage, path)
-            if a is None or b is None or c is not None or isinstance(a, dict) or isinstance(b, dict):
-                return False
-            if canon_conf(a, "\0") != vals.get("reloaded") or canon_conf(b, "\0") != vals.get("control"):
-                return False
-            if path == "command.environment":
-                env_explained.add(node)
-    for node in (detail.get("environment") or {}):
-        if node not in env_explained:
-            return False
-    return True
-
-
 CLASSIFIERS = {"c07_setoption_patch_before_store": classify_patch_lost,
-               "c07_platformless_restore_forgets_platform": classify_platformless_restore,
-               "c07_stored_blueprints_reorder_layers": classify_blueprint_order}
+               "c07_platformless_restore_forgets_platform": classify_platformless_restore}
 
 
 def stored_change_detail(a, b):
@@ -1249,6 +1189,15 @@ def check_case(ctx, case, tmp_root, record=None):
         if a["op"] == "load" and b["op"] == "iterate":
             tags.append("iterate-after-load:" + a["how"])
     tags += sorted(list_option_tags(case))
+    if nondefault:
+        # the shape the stored description folded wrongly before fix 1b655bb: one option path set by the default
+        # blueprint of a stage and by the global blueprint of the selected platform
+        bps_ = case["main"].get("blueprint") or {}
+        pg = set(flat_paths((bps_.get(case["platform"]) or {}).get("global") or {}))
+        for _s, d_ in ((bps_.get("default") or {}).get("stages") or {}).items():
+            if pg & set(flat_paths(d_ or {})):
+                tags.append("blueprint:default-stage-and-platform-global-set-the-same-path")
+                break
     if nondefault and ("none" in hows or "inspect" in hows):
         tags.append("platformless-reload-of-non-default-platform-instance")
         if any("variables" in (o or {}) for c in comps for o in (c.get("override") or {}).values()):
@@ -1480,7 +1429,7 @@ def check_case(ctx, case, tmp_root, record=None):
                 if cd is not None and cd["by"] == "loaded" and ms.get("byLoaded"):
                     det = control_diffs(out["refs"][cd["ref"]], cd["snap"])
                     impl_same = not (det.get("configuration") or det.get("only_reloaded") or det.get("only_control"))
-                    ctx.tag("model:newCompsOk" if ms["newCompsOk"] else "model:new-components-outside-bpClosed/bpOrderFree")
+                    ctx.tag("model:newCompsOk" if ms["newCompsOk"] else "model:new-components-outside-bpClosed")
                     if ms["newCompsOk"] or ms["sameAsControl"] == impl_same:
                         # (outside the hypotheses the model may tell raw from interpolated blueprint values that
                         # resolve alike; inside them new_component_after_reload_partial says `true`)
@@ -1697,9 +1646,10 @@ CORPUS = [
      "history": [{"op": "load", "how": "restart"}, {"op": "iterate"}, {"op": "iterate"},
                  {"op": "load", "how": "restart"}, {"op": "iterate"}, {"op": "load", "how": "same"}],
      "layout": "dir", "folders": [], "appdeps": [], "inputs": [], "datafiles": []},
-    # known finding C07-stored-blueprints-reorder-layers: resourceRequest.numberThreads is set by the default blueprint of
-    # the stage of the loop (2) and by the global blueprint of platform hpc (4); everything else the loop inherits
-    # (environment, walltime) must survive the restart.  Restart, then the restarted experiment instantiates iteration 2
+    # (repaired in /repo, fix 1b655bb: the stored stage blueprint used to drop the platform-global blueprint below the
+    # default-stage one) resourceRequest.numberThreads is set by the default blueprint of the stage of the loop (2) and by
+    # the global blueprint of platform hpc (4): the iteration a restarted experiment instantiates must answer 4, and
+    # everything else the loop inherits (environment, walltime) must survive the restart too
     {"main": {"platforms": ["default", "hpc"],
               "variables": {"default": {"global": {"v1": "1"}, "stages": {}}, "hpc": {"global": {"v1": "64"}, "stages": {}}},
               "environments": {"default": {"loopenv": {"DEFAULTS": "PATH", "OMP_NUM_THREADS": "2"}}},
